@@ -16,7 +16,7 @@
 #include <time.h>
 
 #define VH_MAX_STHR 64
-#define VH_MAX_TOKS 512
+#define VH_MAX_TOKS 4096
 typedef struct vh_tctx {
     int index;
     char kind; /* U ULT, E external pthread, T tasklet */
